@@ -399,3 +399,29 @@ func genErrWin(r *prng.R, i int) Scenario {
 		{Op: "stop"}, {Op: "wait"}, {Op: "end"}}
 	return sc
 }
+
+// several children fail at once after a reload that grew the membership beyond the capacity the
+// error channel got at the initial boot (cap = max(1, initial entries)): init m children, reload to
+// n > m, then cap+2 or more (up to all n) children return non-cancellation errors without a pause.
+func genMultiFail(r *prng.R, i int) Scenario {
+	n := 3 + r.Intn(2)
+	m := 1 + r.Intn(n-2) // cap = m, so that cap+2 <= n
+	sc := Scenario{ID: fmt.Sprintf("multifail-%d", i), Family: "multifail", Pool: randPool(r, n, "F", 5)}
+	cur := make([]int, m)
+	for j := range cur {
+		cur[j] = j
+	}
+	sc.Init = seqEntries(r, cur)
+	all := make([]int, n)
+	for j := range all {
+		all[j] = j
+	}
+	ops := []Op{{Op: "run"}, {Op: "wait"}, {Op: "reload", Cb: "some", Cfg: seqEntries(r, all)}, {Op: "wait"}}
+	k := m + 2 + r.Intn(n-m-1) // number of failing children, cap+2 .. n
+	for _, c := range perm(r, n)[:k] {
+		ops = append(ops, Op{Op: "exit", C: c, Err: prng.Pick(r, failShapes)})
+	}
+	ops = append(ops, Op{Op: "wait"}, Op{Op: "stop"}, Op{Op: "wait"}, Op{Op: "end"})
+	sc.Ops = ops
+	return sc
+}
